@@ -566,6 +566,57 @@ func TestC10(t *testing.T) {
 		gen.Exhaustive("30 framings of the PCK CRL and Root CA CRL response bodies", true)
 	})
 
+	// (2c') several root-CRL distribution points answering with lists of different make: with and without a cRLNumber,
+	// issuer names in another string type, one of them unreachable — in every order
+	gen.Direct(t, "crl-distribution-point-mixes", func(t *testing.T) {
+		dps := []string{gen.RootCrlURL, "https://crl.example.test/mirror-b.der", "https://crl.example.test/mirror-c.der"}
+		i := 0
+		for n := 2; n <= 3; n++ {
+			p := gen.NewPKI(gen.PKISpec{Seed: fmt.Sprintf("c10-dp%d", n), RootCRLDP: dps[:n]})
+			w := gen.NewWorld(p, gen.NewStream(gen.Seed()+80+uint64(n), "c10dp")).Build()
+			spec := gen.CRLSpec{Revoked: [][]byte{{0x31, 0x32, 0x33}}}
+			kinds := map[string]gen.Response{
+				"numbered":          {Body: gen.MakeCRLByHand(p.Root, p.Root.Key, spec, nil, true)},
+				"no-number":         {Body: gen.MakeCRLByHand(p.Root, p.Root.Key, spec, nil, false)},
+				"no-number-utf8":    {Body: gen.MakeCRLByHand(p.Root, p.Root.Key, spec, gen.RawNameUTF8(p.Root.X.Subject), false)},
+				"stdlib":            {Body: gen.MakeCRL(p.Root, p.Root.Key, spec)},
+				"unreachable":       {Err: errors.New("scripted: unreachable")},
+				"number-huge":       {Body: gen.MakeCRLByHand(p.Root, p.Root.Key, gen.CRLSpec{Number: 1<<62 - 2}, nil, true)},
+				"empty-list-no-num": {Body: gen.MakeCRLByHand(p.Root, p.Root.Key, gen.CRLSpec{}, nil, false)},
+			}
+			names := make([]string, 0, len(kinds))
+			for k := range kinds {
+				names = append(names, k)
+			}
+			sort.Strings(names)
+			var rec func(assign []string)
+			rec = func(assign []string) {
+				if len(assign) == n {
+					i++
+					if !gen.ShardOwns(i) {
+						return
+					}
+					for di, u := range dps[:n] {
+						w.Resp[u] = kinds[assign[di]]
+					}
+					o := w.Options(gen.LvlCRL, w.NewGetter(), nil)
+					c10Call(t, "verify.RawTdxQuote+crl-distribution-points:"+strings.Join(assign, ","), w.CaseFile(gen.LvlCRL, nil, nil, nil, "nopanic"), func() error { return verify.RawTdxQuote(w.Raw, o) })
+					gen.NonTrivial("dp-mix", strings.Join(assign, ","))
+					gen.Class("crl-distribution-point-mix")
+					if i%37 == 0 {
+						gen.Sample("crl-distribution-point-mix", strings.Join(assign, ","))
+					}
+					return
+				}
+				for _, k := range names {
+					rec(append(append([]string{}, assign...), k))
+				}
+			}
+			rec(nil)
+		}
+		gen.Exhaustive("every assignment of 7 kinds of answer to 2 and to 3 root-CRL distribution points", true)
+	})
+
 	// (2d) certificates of unexpected kinds in the issuer-chain headers (nothing has authenticated them when they are
 	// first looked at): RSA, Ed25519, P-384 keys, and certificates whose key algorithm the standard library does not know
 	gen.Direct(t, "issuer-chain-certificate-kinds", func(t *testing.T) {
